@@ -363,7 +363,7 @@ fn real_ladder(rep: &mut Report, solver: Solver, st: &Stack, span_l: f64, mode: 
         ladder_tols().iter().map(|tol| { let dt_max = dtmax_for(solver, lip, *tol, 0.9); Cfg { t0: st.t0, t1, dt_min: dt_max * 1e-7, dt_max, tol: *tol } }).collect()
     };
     for cfg in &rungs {
-        let out = solve_real(solver, cfg, &z0, st, &Opts { budget: 20_000_000, max_items: 2_000_000, mode, ..Default::default() });
+        let out = solve_real(solver, cfg, &z0, st, &Opts { budget: 20_000_000, max_items: 2_000_000, mode, order: ((cfg.t1.to_bits() >> 7) % 6) as u8, ..Default::default() });
         rep.eval();
         rep.count(&format!("{}/rungs", sname), 1);
         if out.panic.is_some() || out.build_err.is_some() {
@@ -407,7 +407,7 @@ fn complex_ladder(rep: &mut Report, solver: Solver, p: &ComplexLinear, span_l: f
         [1e-3, 1e-5, 1e-7, 1e-9, 1e-10].iter().map(|tol| { let dt_max = dtmax_for(solver, lip, *tol, 0.9); Cfg { t0: p.t0, t1, dt_min: dt_max * 1e-7, dt_max, tol: *tol } }).collect()
     };
     for cfg in &rungs {
-        let opts = Opts { budget: 20_000_000, max_items: 2_000_000, mode: DimMode::Dynamic, ..Default::default() };
+        let opts = Opts { budget: 20_000_000, max_items: 2_000_000, mode: DimMode::Dynamic, order: ((cfg.t1.to_bits() >> 7) % 6) as u8, ..Default::default() };
         let oc = solve_complex(solver, cfg, &p.y0, p, &opts);
         let or = solve_real(solver, cfg, &y0r, &req, &opts);
         rep.evals(2);
@@ -462,8 +462,8 @@ fn static_vs_dynamic(rep: &mut Report, solver: Solver, st: &Stack, span_l: f64, 
     let dt_max = if solver == Solver::Euler { 0.01 / lip } else { dtmax_for(solver, lip, tol, 0.9) };
     let cfg = Cfg { t0: st.t0, t1, dt_min: dt_max * 1e-7, dt_max, tol };
     let z0 = st.z0();
-    let a = solve_real(solver, &cfg, &z0, st, &Opts { mode: DimMode::Static, ..Default::default() });
-    let b = solve_real(solver, &cfg, &z0, st, &Opts { mode: DimMode::Dynamic, ..Default::default() });
+    let a = solve_real(solver, &cfg, &z0, st, &Opts { mode: DimMode::Static, order: ((cfg.t1.to_bits() >> 7) % 6) as u8, ..Default::default() });
+    let b = solve_real(solver, &cfg, &z0, st, &Opts { mode: DimMode::Dynamic, order: ((cfg.t1.to_bits() >> 11) % 6) as u8, ..Default::default() });
     rep.evals(2);
     rep.count("static_vs_dynamic_pairs", 1);
     let case = || J::obj().set("solver", sname).set("problem", st.to_json()).set("cfg", cfg.to_json());
